@@ -8,16 +8,19 @@
 //!   {"ev":"fmt",  "case","b": chrono_local|chrono_utc|jiff_zoned|jiff_timestamp|time_odt,
 //!    "day","sod","off", "st": ok|na|env|panic, "s":[bytes]}
 //!   {"ev":"parse","case","p": chrono|jiff|time, "srcs":[producers of this exact string | "lit"],
-//!    "in":[bytes], "st": ok|fail|panic, "day","sod","off","hasoff", "cday","csod","coff",
+//!    "in":[bytes], "st": ok|fail|env|panic, "day","sod","off","hasoff", "cday","csod","coff", "tz",
 //!    "hi_day","hi_sod": latest instant the parser's type can represent (jiff stops at 9999-12-30T22:00:00Z)}
 //!
 //! `st = na`  : the backend's own type cannot represent the instant/offset (not lopdf's business);
-//! `st = env` : chrono's `Local` did not take the requested offset from `TZ` (environment).
+//! `st = env` : chrono's `Local` did not take the requested offset from `TZ`, or jiff has no time zone
+//!              database to look "GMT"/"UTC" up in (environment, never judged).
 //!
-//! chrono's `DateTime<Local>` takes its offset from the process time zone, so all cases with the same
-//! offset are run in one child process started with `TZ=XXX<posix offset>` (POSIX sign is inverted:
-//! `XXX-05:30` is UTC+05:30).  Nothing else in the worker depends on the zone: jiff and time values are
-//! built with explicit fixed offsets.
+//! chrono's `DateTime<Local>` takes its offset from the process time zone, so the conversions of all
+//! cases with the same offset are run in one child process started with `TZ=XXX<posix offset>` (POSIX
+//! sign is inverted: `XXX-05:30` is UTC+05:30); jiff and time values are built with explicit fixed
+//! offsets.  All parsing is done afterwards in a child whose zone (UTC+07:17, or UTC-03:11 for cases at
+//! +07:17) differs from the offset of every string it parses, so a parser that took the process zone
+//! instead of the string's offset cannot pass by coincidence.
 //!
 //! `replay --in cases --out recs`   cases come from TLC (MC_Dates), strings written by the spec are in `lits`.
 //! `record --seed S --n N --out recs`  seeded random cases over the whole domain + the repository's literals.
@@ -141,68 +144,55 @@ fn bytes_json(b: &[u8]) -> Value {
     Value::Array(b.iter().map(|x| json!(*x)).collect())
 }
 
-fn run_case(c: &Value, out: &mut dyn FnMut(Value)) {
+/// phase 1 (child with TZ = the case's offset): the five `Object::from` conversions of one case
+fn fmt_case(c: &Value, out: &mut dyn FnMut(Value)) {
     let id = c["id"].as_i64().unwrap();
     let (day, sod, off) = (c["day"].as_i64().unwrap(), c["sod"].as_i64().unwrap(), c["off"].as_i64().unwrap());
     let secs = unix(day, sod);
-    // strings to parse, in first-seen order, with who produced them
-    let mut inputs: Vec<(Vec<u8>, Vec<String>)> = Vec::new();
-    let add = |s: Vec<u8>, src: &str, inputs: &mut Vec<(Vec<u8>, Vec<String>)>| {
-        if let Some(e) = inputs.iter_mut().find(|e| e.0 == s) {
-            if !e.1.iter().any(|x| x == src) {
-                e.1.push(src.to_string());
+    for b in FMT_BACKENDS {
+        let mut rec = json!({"ev": "fmt", "case": id, "b": b, "day": day, "sod": sod, "off": off, "s": []});
+        match guarded(|| fmt_one(b, secs, off)) {
+            Ok(Ok(s)) => {
+                rec["st"] = json!("ok");
+                rec["s"] = bytes_json(&s);
             }
-        } else {
-            inputs.push((s, vec![src.to_string()]));
-        }
-    };
-    if c["fmt"].as_bool().unwrap_or(true) {
-        for b in FMT_BACKENDS {
-            let mut rec = json!({"ev": "fmt", "case": id, "b": b, "day": day, "sod": sod, "off": off});
-            match guarded(|| fmt_one(b, secs, off)) {
-                Ok(Ok(s)) => {
-                    rec["st"] = json!("ok");
-                    rec["s"] = bytes_json(&s);
-                    add(s, b, &mut inputs);
-                }
-                Ok(Err(Fail::Na(m))) => {
-                    rec["st"] = json!("na");
-                    rec["s"] = json!([]);
-                    rec["msg"] = json!(m);
-                }
-                Ok(Err(Fail::Env(m))) => {
-                    rec["st"] = json!("env");
-                    rec["s"] = json!([]);
-                    rec["msg"] = json!(m);
-                }
-                Err(p) => {
-                    rec["st"] = json!("panic");
-                    rec["s"] = json!([]);
-                    rec["msg"] = json!(p);
-                }
+            Ok(Err(Fail::Na(m))) => {
+                rec["st"] = json!("na");
+                rec["msg"] = json!(m);
             }
-            out(rec);
+            Ok(Err(Fail::Env(m))) => {
+                rec["st"] = json!("env");
+                rec["msg"] = json!(m);
+            }
+            Err(p) => {
+                rec["st"] = json!("panic");
+                rec["msg"] = json!(p);
+            }
         }
+        out(rec);
     }
-    if let Some(lits) = c["lits"].as_array() {
-        for l in lits {
-            let s: Vec<u8> = l.as_array().unwrap().iter().map(|x| x.as_u64().unwrap() as u8).collect();
-            add(s, "lit", &mut inputs);
-        }
-    }
-    for (s, srcs) in &inputs {
+}
+
+/// phase 2 (child with a TZ that differs from every offset in the strings): every input string of one
+/// case through the three parsers.  `c.inputs = [{"s": bytes, "srcs": [..]}]`
+fn parse_case(c: &Value, out: &mut dyn FnMut(Value)) {
+    let id = c["id"].as_i64().unwrap();
+    let (day, sod, off) = (c["day"].as_i64().unwrap(), c["sod"].as_i64().unwrap(), c["off"].as_i64().unwrap());
+    let tz = std::env::var("TZ").unwrap_or_default();
+    for inp in c["inputs"].as_array().unwrap() {
+        let s: Vec<u8> = inp["s"].as_array().unwrap().iter().map(|x| x.as_u64().unwrap() as u8).collect();
         for p in PARSERS {
-            let mut rec = json!({"ev": "parse", "case": id, "p": p, "srcs": srcs, "in": bytes_json(s),
+            let mut rec = json!({"ev": "parse", "case": id, "p": p, "srcs": inp["srcs"], "in": inp["s"], "tz": tz,
                                  "cday": day, "csod": sod, "coff": off,
                                  "day": 0, "sod": 0, "off": 0, "hasoff": false});
             // latest instant the parser's own type can hold (asked from the backend at run time), clipped to the domain
             let (hd, hs) = type_max(p);
             rec["hi_day"] = json!(hd);
             rec["hi_sod"] = json!(hs);
-            match guarded(|| parse_one(p, s)) {
+            match guarded(|| parse_one(p, &s)) {
                 Ok(Ok((secs2, o))) => {
                     let (d2, s2) = split(secs2);
-                    if !(0..=MAX_DAY + 400).contains(&d2) {
+                    if !(-400..=MAX_DAY + 400).contains(&d2) {
                         rec["st"] = json!("fail");
                         rec["msg"] = json!(format!("parsed instant far outside 0001-9999: unix {secs2}"));
                     } else {
@@ -216,7 +206,10 @@ fn run_case(c: &Value, out: &mut dyn FnMut(Value)) {
                     }
                 }
                 Ok(Err(m)) => {
-                    rec["st"] = json!("fail");
+                    // lopdf's jiff parser looks the zones "UTC"/"GMT" up by name: without a time zone
+                    // database on this machine that failure is the environment's, not a verdict on lopdf
+                    let env = p == "jiff" && (jiff::tz::TimeZone::get("GMT").is_err() || jiff::tz::TimeZone::get("UTC").is_err());
+                    rec["st"] = json!(if env { "env" } else { "fail" });
                     rec["msg"] = json!(m);
                 }
                 Err(pn) => {
@@ -230,7 +223,7 @@ fn run_case(c: &Value, out: &mut dyn FnMut(Value)) {
 }
 
 /// child: cases on stdin (one JSON per line), records on stdout
-fn worker() {
+fn worker(phase: &str) {
     let stdin = std::io::stdin();
     let stdout = std::io::stdout();
     let mut w = std::io::BufWriter::new(stdout.lock());
@@ -240,10 +233,15 @@ fn worker() {
             continue;
         }
         let c: Value = serde_json::from_str(&l).expect("case json");
-        run_case(&c, &mut |rec| {
+        let mut put = |rec: Value| {
             serde_json::to_writer(&mut w, &rec).unwrap();
             w.write_all(b"\n").unwrap();
-        });
+        };
+        if phase == "fmt" {
+            fmt_case(&c, &mut put);
+        } else {
+            parse_case(&c, &mut put);
+        }
     }
     w.flush().unwrap();
 }
@@ -254,56 +252,115 @@ fn posix_tz(off: i64) -> String {
     format!("XXX{}{:02}:{:02}", if off > 0 { "-" } else { "+" }, a / 60, a % 60)
 }
 
-/// Run all cases, one child process per distinct offset; records come back in case order.
-fn run_cases(cases: &[Value]) -> Vec<Value> {
+/// Run `inputs` (json lines) in one child `c18 worker <phase>` with TZ set; returns (stdout lines, exit ok, status text).
+fn run_child(phase: &str, tz: &str, inputs: &[String]) -> (Vec<Value>, bool, String) {
     let exe = std::env::current_exe().expect("current_exe");
+    let mut child = Command::new(&exe)
+        .arg("worker")
+        .arg(phase)
+        .env("TZ", tz)
+        .stdin(Stdio::piped())
+        .stdout(Stdio::piped())
+        .stderr(Stdio::inherit())
+        .spawn()
+        .expect("spawn worker");
+    let mut input = inputs.join("\n");
+    input.push('\n');
+    let mut si = child.stdin.take().unwrap();
+    let feeder = std::thread::spawn(move || {
+        let _ = si.write_all(input.as_bytes());
+    });
+    let o = child.wait_with_output().expect("wait worker");
+    let _ = feeder.join();
+    let recs = String::from_utf8_lossy(&o.stdout).lines().filter_map(|l| serde_json::from_str::<Value>(l).ok()).collect();
+    (recs, o.status.success(), format!("{}", o.status))
+}
+
+/// The zone of the parsing child: a fixed offset that occurs in none of the strings it parses (a parser
+/// that used the process zone instead of the string's offset would otherwise go unnoticed).
+const PARSE_TZ: [i64; 2] = [437, -191];
+
+/// Run all cases; records come back in case order (conversions first, then parses).
+fn run_cases(cases: &[Value]) -> Vec<Value> {
+    let mut per_case: BTreeMap<i64, Vec<Value>> = BTreeMap::new();
+    let crash = |c: &Value, phase: &str, status: &str| {
+        json!({"ev": "crash", "case": c["id"], "phase": phase, "off": c["off"], "day": c["day"], "sod": c["sod"], "status": status})
+    };
+    // ---- phase 1: conversions, one child per distinct offset (TZ = that offset), a few children at a time
     let mut groups: BTreeMap<i64, Vec<usize>> = BTreeMap::new();
     for (i, c) in cases.iter().enumerate() {
-        groups.entry(c["off"].as_i64().unwrap()).or_default().push(i);
-    }
-    let mut per_case: BTreeMap<i64, Vec<Value>> = BTreeMap::new();
-    let groups: Vec<(i64, Vec<usize>)> = groups.into_iter().collect();
-    // a few children at a time
-    for chunk in groups.chunks(8) {
-        let mut kids = Vec::new();
-        for (off, idxs) in chunk {
-            let mut child = Command::new(&exe)
-                .arg("worker")
-                .env("TZ", posix_tz(*off))
-                .stdin(Stdio::piped())
-                .stdout(Stdio::piped())
-                .stderr(Stdio::inherit())
-                .spawn()
-                .expect("spawn worker");
-            let mut input = String::new();
-            for &i in idxs {
-                input.push_str(&serde_json::to_string(&cases[i]).unwrap());
-                input.push('\n');
-            }
-            let mut si = child.stdin.take().unwrap();
-            // inputs are small (well below the pipe buffer per write is not guaranteed): feed from a thread
-            let feeder = std::thread::spawn(move || {
-                let _ = si.write_all(input.as_bytes());
-            });
-            kids.push((child, feeder, idxs.clone(), *off));
+        if c["fmt"].as_bool().unwrap_or(true) {
+            groups.entry(c["off"].as_i64().unwrap()).or_default().push(i);
         }
-        for (child, feeder, idxs, off) in kids {
-            let o = child.wait_with_output().expect("wait worker");
-            let _ = feeder.join();
-            let mut seen: std::collections::BTreeSet<i64> = Default::default();
-            for l in String::from_utf8_lossy(&o.stdout).lines() {
-                if let Ok(v) = serde_json::from_str::<Value>(l) {
-                    let id = v["case"].as_i64().unwrap();
-                    seen.insert(id);
-                    per_case.entry(id).or_default().push(v);
+    }
+    let groups: Vec<(i64, Vec<usize>)> = groups.into_iter().collect();
+    for chunk in groups.chunks(8) {
+        let handles: Vec<_> = chunk
+            .iter()
+            .map(|(off, idxs)| {
+                let lines: Vec<String> = idxs.iter().map(|&i| serde_json::to_string(&cases[i]).unwrap()).collect();
+                let tz = posix_tz(*off);
+                std::thread::spawn(move || run_child("fmt", &tz, &lines))
+            })
+            .collect();
+        for (h, (_, idxs)) in handles.into_iter().zip(chunk.iter()) {
+            let (recs, ok, status) = h.join().expect("join");
+            for v in recs {
+                per_case.entry(v["case"].as_i64().unwrap()).or_default().push(v);
+            }
+            for &i in idxs {
+                let id = cases[i]["id"].as_i64().unwrap();
+                // a worker that died (abort, stack overflow) is data: mark the cases it did not answer
+                if !ok && per_case.get(&id).map_or(0, |v| v.len()) < FMT_BACKENDS.len() {
+                    per_case.entry(id).or_default().push(crash(&cases[i], "fmt", &status));
                 }
             }
-            // a worker that died (abort, stack overflow) is data: mark the cases it did not answer
-            for &i in &idxs {
-                let id = cases[i]["id"].as_i64().unwrap();
-                if !o.status.success() && !seen.contains(&id) {
-                    per_case.entry(id).or_default().push(json!({"ev": "crash", "case": id, "off": off,
-                        "day": cases[i]["day"], "sod": cases[i]["sod"], "status": format!("{}", o.status)}));
+        }
+    }
+    // ---- phase 2: parses, in a child whose zone differs from the case's offset
+    let mut batches: [Vec<(usize, String)>; 2] = [Vec::new(), Vec::new()];
+    for (i, c) in cases.iter().enumerate() {
+        let id = c["id"].as_i64().unwrap();
+        let mut inputs: Vec<(Value, Vec<String>)> = Vec::new();
+        let mut add = |s: &Value, src: &str| {
+            if let Some(e) = inputs.iter_mut().find(|e| &e.0 == s) {
+                if !e.1.iter().any(|x| x == src) {
+                    e.1.push(src.to_string());
+                }
+            } else {
+                inputs.push((s.clone(), vec![src.to_string()]));
+            }
+        };
+        for r in per_case.get(&id).map(|v| v.as_slice()).unwrap_or(&[]) {
+            if r["ev"] == "fmt" && r["st"] == "ok" {
+                add(&r["s"], r["b"].as_str().unwrap());
+            }
+        }
+        if let Some(lits) = c["lits"].as_array() {
+            for l in lits {
+                add(l, "lit");
+            }
+        }
+        let inputs: Vec<Value> = inputs.into_iter().map(|(s, srcs)| json!({"s": s, "srcs": srcs})).collect();
+        let pc = json!({"id": id, "day": c["day"], "sod": c["sod"], "off": c["off"], "inputs": inputs});
+        let which = if c["off"].as_i64().unwrap() == PARSE_TZ[0] { 1 } else { 0 };
+        batches[which].push((i, serde_json::to_string(&pc).unwrap()));
+    }
+    for (which, batch) in batches.iter().enumerate() {
+        // several children so that a crash costs (and blames) few cases
+        for part in batch.chunks(500) {
+            let lines: Vec<String> = part.iter().map(|x| x.1.clone()).collect();
+            let (recs, ok, status) = run_child("parse", &posix_tz(PARSE_TZ[which]), &lines);
+            let mut answered: std::collections::BTreeSet<i64> = Default::default();
+            for v in recs {
+                let id = v["case"].as_i64().unwrap();
+                answered.insert(id);
+                per_case.entry(id).or_default().push(v);
+            }
+            for (i, _) in part {
+                let id = cases[*i]["id"].as_i64().unwrap();
+                if !ok && !answered.contains(&id) {
+                    per_case.entry(id).or_default().push(crash(&cases[*i], "parse", &status));
                 }
             }
         }
@@ -437,7 +494,7 @@ fn record(args: &[String]) {
 fn main() {
     let args: Vec<String> = std::env::args().collect();
     match args.get(1).map(|s| s.as_str()) {
-        Some("worker") => worker(),
+        Some("worker") => worker(args.get(2).map(|s| s.as_str()).unwrap_or("fmt")),
         Some("replay") => replay(&args),
         Some("record") => record(&args),
         _ => {
